@@ -82,6 +82,17 @@ def run(rep, pid, thorough):
     pp.run(rep, pid, [odd], modes='ctl-unsafe,ctl-safe' if thorough else 'ctl-unsafe', module='MultiOddGen', replay_cmd='replay-multi', class_props=CLASS_PROPS, prefix='multi.')
 
 
+def run_downstream_failure(rep, pid, thorough):
+    """C07: a failure raised DOWNSTREAM of a multi-source / higher-order operator while it emits (tail Throw1: the stage after the operator fails on the first
+    value) or an early completion there (Take1): one Error / Complete, every source released, and every later call into the operator returns (no lock of the
+    operator is held during the emission that triggered its own teardown)."""
+    pp.run(rep, pid, [cfg('multi-two-downstream-cut', MaxSteps=5 if thorough else 4, MaxPerSrc=3, TailSetName='"cuts"'),
+                      cfg('multi-three-downstream-cut', MaxSteps=4 if thorough else 3, MaxPerSrc=2, TailSetName='"cuts"', InstSetName='"three"')],
+           modes='ctl-unsafe,ctl-safe', module='MultiGen', replay_cmd='replay-multi', class_props=CLASS_PROPS, prefix='multi.')
+    pp.run(rep, pid, [ho_cfg('ho-all-downstream-cut', MaxSteps=6 if thorough else 5, Cuts='FALSE', TailSetName='"cuts"')],
+           modes='ctl-unsafe', module='HOGen', replay_cmd='replay-multi', class_props=HO_CLASS_PROPS, prefix='multi.')
+
+
 def replay_case(pid, path):
     import json
     rp = json.load(open(path))['replay']
